@@ -79,7 +79,7 @@ P = {
          'induction over the run model with the codec equivalence; history-based correspondence incl. reloads',
          ''),
  'C16': ('Five kernel-checked, axiom-free theorems over Z about the clang-AST-translated discard_before / discard_after / three sub_calls copies with the unsigned 64-bit wrap explicit: '
-         'balanced shares, sum = total, contiguity, common end position, for all totals < 2^64 and world sizes < 2^31; the translator regenerates the definitions from /repo on every run.',
+         'balanced shares, sum = total, contiguity, common end position, for all totals < 2^64 and world sizes < 2^31; supplement Properties_C16p (five more, axiom-free): every stream position below the total lies in the block of exactly one rank, no block reaches beyond the total, blocks are ordered like the ranks, the skip after a share covers exactly the blocks of the higher ranks; the translator regenerates the definitions from /repo on every run.',
          'integer theorems (lia/nia) about definitions translated from the headers on every run + exhaustive small-domain correspondence',
          'Range hypotheses: totals < 2^64, world < 2^31.'),
  'C17': ('Law-generic trace theorems: per call exactly one integrand event (PLAIN, VEGAS); multi-channel calls are MapCoords(enabled channel, same numbers, full enabled list), Integrand, then density requests '
